@@ -23,12 +23,12 @@ pub fn def() -> CheckDef {
         },
         gen,
         run,
-        rule: "one workload (its fault positions spread over 8 cases, k mod 8) = a drawn mutating workload from an empty file (create storages/streams; handle writes that stay mini, stay regular, migrate both ways; set_len; removes; setters; explicit flush on handles and on the file; <= 40 calls, V3/V4, drawn max_buffer_size). A fault-free reference run counts the N underlying seam calls; then the workload is re-run with one fault at EVERY k in 1..N in each kind applicable to call k: fail (F-WE / F-SE / F-FE / F-RE), torn write with a drawn prefix (F-WT), and disk-full from k on, healed after the first failing API call (F-DF). A failing API call is retried (<= 3 times), then the rest of the workload runs. Oracles: (1) an API call during which a write/seek/flush fault fired returns Err; (2) nothing panics or exceeds its step budget; (3) whenever flush() on a handle returns Ok - first try or retry - a fresh handle on the live file AND the underlying bytes reopened (every third workload: the bytes made durable by the underlying file's own last successful flush - write-back-cache model) read back exactly the bytes whose write calls that handle accepted (read-back / reopen errors count as inconclusive). sub_runs = faulted executions. Non-trivial: a fault fired and a later handle flush returned Ok and was verified; distinct = distinct seam-log hashes. A failed read / fill_buf / seek on a handle must not move its position (rule position-moved-by-failed-call): the bytes accepted next would be stored at another offset than the caller's.",
+        rule: "one workload (its fault positions spread over 8 cases, k mod 8) = a drawn mutating workload from an empty file (create storages/streams; handle writes that stay mini, stay regular, migrate both ways; set_len; removes; setters; explicit flush on handles and on the file; <= 40 calls, V3/V4, drawn max_buffer_size). A fault-free reference run counts the N underlying seam calls; then the workload is re-run with one fault at EVERY k in 1..N in each kind applicable to call k: fail (F-WE / F-SE / F-FE / F-RE), torn write with a drawn prefix (F-WT), and disk-full from k on, healed after the first failing API call (F-DF). A failing API call is retried (<= 3 times), then the rest of the workload runs. At every 4th position of the quick tier (every position in the thorough tier) a SECOND failure is injected inside the retry of the call that failed first (at a drawn call of the retry and at its last one), so that the retry has to be retryable too. Oracles: (1) an API call during which a write/seek/flush fault fired returns Err; (2) nothing panics or exceeds its step budget; (3) whenever flush() on a handle returns Ok - first try or retry - a fresh handle on the live file AND the underlying bytes reopened (every third workload: the bytes made durable by the underlying file's own last successful flush - write-back-cache model) read back exactly the bytes whose write calls that handle accepted (read-back / reopen errors count as inconclusive). sub_runs = faulted executions. Non-trivial: a fault fired and a later handle flush returned Ok and was verified; distinct = distinct seam-log hashes. A failed read / fill_buf / seek on a handle must not move its position (rule position-moved-by-failed-call): the bytes accepted next would be stored at another offset than the caller's.",
         assumptions: &["Drop is never relied upon to write back (excluded by the statement): the workload flushes explicitly", "after a failed set_len or failed structural call the affected stream's expected content is unknown and no longer judged (inconclusive)"],
         cpu_limit_s: 1200,
-        fault_kinds: "F-WE, F-WT, F-SE, F-FE, F-RE at every k (enumerated), F-DF from every k with heal",
+        fault_kinds: "F-WE, F-WT, F-SE, F-FE, F-RE at every k (enumerated), F-DF from every k with heal, a second failure inside the retry",
         count_subruns: true,
-        expect_probes: &["flushes_verified_after_fault", "workload_seam_calls"],
+        expect_probes: &["flushes_verified_after_fault", "workload_seam_calls", "second_fault_inside_retry_runs"],
     }
 }
 
@@ -36,7 +36,11 @@ pub fn def() -> CheckDef {
 /// that the enumeration of a long workload uses all workers.
 pub const SLICES: u64 = 8;
 
-pub fn gen(seed: u64, idx: u64, _tier: Tier) -> Case {
+pub fn gen(seed: u64, idx: u64, tier: Tier) -> Case {
+    let pair_every: i64 = match tier {
+        Tier::Quick => 4,
+        Tier::Thorough => 1,
+    };
     let slice = idx % SLICES;
     let idx = idx / SLICES;
     let mut rng = Rng::for_case(seed, "C13", idx);
@@ -211,6 +215,7 @@ pub fn gen(seed: u64, idx: u64, _tier: Tier) -> Case {
         c.params.insert("torn_seed".into(), (rng.next_u64() >> 2) as i64);
         c.params.insert("slice".into(), slice as i64);
         c.params.insert("nslices".into(), SLICES as i64);
+        c.params.insert("pair_every".into(), pair_every);
         if idx % 3 == 2 {
             c.params.insert("durable".into(), 1);
         }
@@ -228,6 +233,7 @@ pub fn gen(seed: u64, idx: u64, _tier: Tier) -> Case {
     c.params.insert("torn_seed".into(), (rng.next_u64() >> 2) as i64);
     c.params.insert("slice".into(), slice as i64);
     c.params.insert("nslices".into(), SLICES as i64);
+    c.params.insert("pair_every".into(), pair_every);
     if idx % 3 == 2 {
         c.params.insert("durable".into(), 1);
     }
@@ -255,6 +261,8 @@ struct RunOut {
     verified_after_fault: u64,
     inconclusive: u64,
     trace: u64,
+    /// seam-call counter at the start and at the end of the FIRST retry of a failed call
+    retry_span: Option<(u64, u64)>,
 }
 
 fn is_write_class(name: &str) -> bool {
@@ -275,7 +283,7 @@ fn execute(case: &Case, plan: &[Fault], heal_after_first_failure: bool) -> RunOu
     let mut drop_fault = false;
     let retry_set_len = case.param("retry_set_len", 1) == 1;
     let set_len_carry_on = case.param("set_len_carry_on", 0) == 1;
-    let mut out = RunOut { n_events: 0, violation: None, fired: Default::default(), verified_after_fault: 0, inconclusive: 0, trace: 0 };
+    let mut out = RunOut { n_events: 0, violation: None, fired: Default::default(), verified_after_fault: 0, inconclusive: 0, trace: 0, retry_span: None };
     crate::driver::set_clock(crate::ops::T { secs: 1_600_000_000, nanos: 0 });
     let fin = |out: &mut RunOut, disk: &SimDisk| {
         let d = disk.0.borrow();
@@ -366,7 +374,11 @@ fn execute(case: &Case, plan: &[Fault], heal_after_first_failure: bool) -> RunOu
                     }
                 }
             }
+            let k_before = lib.disk.k();
             let got = lib.exec(op);
+            if tries == 2 && out.retry_span.is_none() {
+                out.retry_span = Some((k_before, lib.disk.k()));
+            }
             let fired = lib.disk.fired_in_call();
             if std::env::var("VERIF_DEBUG").is_ok() {
                 eprintln!("step {} try {} {} -> {} fired={:?} k={}", i, tries, op.to_json(), got.brief(), fired, lib.disk.k());
@@ -815,8 +827,11 @@ pub fn run(case: &Case, _known: &BTreeSet<String>) -> Outcome {
     let n = r0.n_events;
     let mut traces: BTreeSet<u64> = BTreeSet::new();
     let mut verified = 0u64;
+    let last_span: std::cell::Cell<Option<(u64, u64)>> = std::cell::Cell::new(None);
+    let mut pair_runs = 0u64;
     let mut run_plan = |o: &mut Outcome, plan: Vec<Fault>, heal: bool| -> bool {
         let r = execute(case, &plan, heal);
+        last_span.set(r.retry_span);
         o.stats.sub_runs += 1;
         o.stats.seam_events += r.n_events;
         o.stats.api_calls += case.ops.len() as u64;
@@ -836,6 +851,7 @@ pub fn run(case: &Case, _known: &BTreeSet<String>) -> Outcome {
     } else {
         let mut rng = Rng::new(case.param("torn_seed", 1) as u64);
         let (slice, nslices) = (case.param("slice", 0) as u64, case.param("nslices", 1).max(1) as u64);
+        let pair_every = case.param("pair_every", 0).max(0) as u64;
         'enumerate: for k in 1..=n {
             let keep = rng.below(64) as usize;
             if k % nslices != slice {
@@ -846,8 +862,27 @@ pub fn run(case: &Case, _known: &BTreeSet<String>) -> Outcome {
             // nothing in the property depends on the kind, so nothing in the library may
             let j = k / nslices;
             let kind = if j % 2 == 0 { FaultKind::Fail } else { FaultKind::FailAs { flavour: 1 + ((j / 2) % 8) as u8 } };
-            if !run_plan(&mut o, vec![Fault { k, kind }], false) {
+            if !run_plan(&mut o, vec![Fault { k, kind: kind.clone() }], false) {
                 break 'enumerate;
+            }
+            // a SECOND failure inside the retry of the call that failed first (positions: a drawn
+            // call of the retry, and its last one): the retry must be retryable too
+            if pair_every > 0 && j % pair_every == 0 {
+                if let Some((a, b)) = last_span.get() {
+                    if b > a {
+                        let mut r2 = Rng::new(crate::prng::mix(case.param("torn_seed", 1) as u64 ^ k));
+                        let mut k2s = vec![a + 1 + r2.below(b - a)];
+                        if !k2s.contains(&b) && j % (2 * pair_every) == 0 {
+                            k2s.push(b);
+                        }
+                        for k2 in k2s {
+                            pair_runs += 1;
+                            if !run_plan(&mut o, vec![Fault { k, kind: kind.clone() }, Fault { k: k2, kind: FaultKind::Fail }], false) {
+                                break 'enumerate;
+                            }
+                        }
+                    }
+                }
             }
             if !run_plan(&mut o, vec![Fault { k, kind: FaultKind::Torn { keep } }], false) {
                 break 'enumerate;
@@ -863,6 +898,7 @@ pub fn run(case: &Case, _known: &BTreeSet<String>) -> Outcome {
     o.stats.nontrivial = verified > 0;
     o.stats.probe_n("flushes_verified_after_fault", verified);
     o.stats.probe_n("workload_seam_calls", n);
+    o.stats.probe_n("second_fault_inside_retry_runs", pair_runs);
     let _ = Whence::Start;
     o
 }
